@@ -21,7 +21,7 @@ def cov_c07(st, tier):
 
 ENGINES = [
     {"name": "E-A netsim", "path": "engine/", "serves_properties": ["C01", "C02", "C10", "C14", "C15"], "kind_free_text": "real client + real server main loops as coroutines in one process under a virtual clock/network/tun; fork-at-choice-point DFS over per-datagram fates, deviation-bounded"},
-    {"name": "E-B adversary", "path": "engine/", "serves_properties": ["C03", "C04", "C12", "C13", "C14", "C15", "C16", "C20"], "kind_free_text": "depth-bounded explicit-state search over message alphabets against the real server/client loop, exact-state hashing of the whole image"},
+    {"name": "E-B adversary", "path": "engine/", "serves_properties": ["C03", "C04", "C05", "C12", "C13", "C14", "C15", "C16", "C20"], "kind_free_text": "depth-bounded explicit-state search over message alphabets against the real server/client loop, exact-state hashing of the whole image"},
     {"name": "E-C enumerators", "path": "props/", "serves_properties": ["C07", "C08", "C09", "C17", "C18", "C19"], "kind_free_text": "exhaustive enumeration of finite input families through the real pure functions, compared with independent references"},
 ]
 
@@ -129,6 +129,22 @@ def ea_entry(prop, level_text, level_note, rule, extra_keys, quick_s=240, thorou
     }
 
 
+def cov_c10(st, tier):
+    ea, aux = st["parts"]["ea"], st["parts"]["aux"]
+    base = cov_ea("C10", "", ["strictly_parsed", "answers"])(ea, tier)
+    base.update({
+        "states": ea["execs"] + ea["states"] + aux["aux_queries"], "transitions": ea["steps"] + aux["transitions"],
+        "traces_validated_against_impl": ea["execs"] + aux["aux_queries"], "evaluations": ea["execs"] + aux["aux_queries"],
+        "distinct_nontrivial": ea["distinct_outcomes"] + aux["distinct_outcomes"],
+        "rule": "E-A part: state = end state of one complete execution of real client+server under one fate assignment, transition = one scheduler step; every datagram of every execution is strictly parsed. "
+                "Aux part: state = one (tunnel domain, query name, type) case, transition = one query handled by the real server loop plus each message it emits. distinct = distinct delivery outcome classes (E-A) + distinct (type, in-domain, answers, answer length) classes (aux)",
+        "ea_part": {"executions": ea["execs"], "cells": ea["cells"], "datagrams_strictly_parsed": ea["strictly_parsed"], "answers_paired": ea["answers"], "wall_s": ea.get("wall_s")},
+        "aux_part": {"queries": aux["aux_queries"], "answers_parsed": aux["aux_answers_parsed"], "ns_answers_checked": aux["ns_answers_checked"], "ns_www_address_answers_checked": aux["a_answers_checked"],
+                     "forwarded_copies_parsed": aux["forwarded_copies_parsed"], "queries_left_unanswered": aux["unanswered"], "tunnel_domains": aux["domains"], "wall_s": aux.get("wall_s")},
+    })
+    return base
+
+
 def cov_c14(st, tier):
     ea, eb = st["parts"]["ea"], st["parts"]["eb"]
     base = cov_ea("C14", "", ["answers", "max_pending"])(ea, tier)
@@ -226,7 +242,32 @@ def cov_c12(st, tier):
     }
 
 
+def cov_c05(st, tier):
+    return {
+        "states": st["datagrams"], "transitions": st["transitions"], "traces_validated_against_impl": st["datagrams"],
+        "evaluations": st["datagrams"], "distinct_nontrivial": st["distinct_outcomes"],
+        "rule": "state = the server after one more hostile datagram / tun frame of the enumerated families (each family runs as one history per session state, so every datagram also meets the leftovers of all earlier ones); "
+                "transition = one delivery to the real server loop (plus 8 per health probe). After every delivery: no ASan/UBSan report, server back in select(), wall-clock watchdog; every 128 deliveries a pre-established second session completes a ping, an upstream and a downstream packet. "
+                "distinct = distinct (session state, family, answers) classes; non-trivial = the server answered or wrote to its tun",
+        "datagrams": st["datagrams"], "tun_frames": st["tun_frames"], "ordered_pairs_of_representatives": st["ordered_pairs"], "health_probes_passed": st["health_probes"],
+        "answers_seen": st["answers_seen"], "tun_writes_by_hostile_input": st["tun_writes"], "session_states": 6, "families": st["families"], "sanitizer_reports": st["sanitizer_reports"],
+        "bounds": {"families": "truncations and single-byte substitutions {00,01,3f,40,7f,80,bf,c0,ff} at every offset of 10 seed queries; header counts/flags; label lengths; pointer chains 1..12 and targets; 250..262-byte names; "
+                               "52 command letters x 12 userid bytes x 10 argument bytes x 12 lengths; commands under 9 record types; hostile N/R/S/O/Y field values; data headers x 6 payload kinds (incl. inflating to 65535/66000 bytes, invalid zlib); "
+                               "raw frames of all lengths 0..40/4096/4097/65507 x 16 x 16 nibbles; tun frames 0..64/1130/1500/4096/65535 bytes x 6 destinations; 48x48 ordered pairs",
+                   "reduced_in_quick": "argument bytes >= 0x80 and raw frame lengths are thinned to a third/quarter"},
+    }
+
+
 PROPS = {
+    "C05": {
+        "harness": "C05.c", "flavor": "asan", "images": (("s", "server"),), "engine": "E-B adversary",
+        "tiers": {"quick": {"budget_s": 120}, "thorough": {"budget_s": 900}},
+        "coverage": cov_c05,
+        "level_text": "Complete finite families of hostile input (malformed DNS at the message, header, label and pointer level; every tunnel command letter with hostile userid/argument bytes and lengths under every record type; data headers with every seq/frag/ack combination and payloads that are empty, invalid zlib or inflate beyond 64 KB; raw frames of every length and nibble; tun frames of every length) are delivered to the real server loop (ASan+UBSan build, IPv4+IPv6 sockets, forwarding on) in six session states, singly within one history per family and in all ordered pairs of 48 class representatives. Oracle: no sanitizer report, no exit, return to select() within a wall-clock bound, and a second pre-established session keeps completing ping / upstream / downstream transfers.",
+        "level_note": "Sanitizers see accesses outside C objects only (C12 covers stale-buffer reads inside the 64 KB buffers). Families, not all byte strings. shift-base is excluded from UBSan (DESIGN.md 1.1).",
+        "technique": "exhaustive enumeration of hostile-input families against the real server loop under ASan/UBSan in every session state (histories of thousands of datagrams, ordered pairs), sanitizer + liveness oracle",
+        "assumptions": COMMON_ASSUME,
+    },
     "C12": {
         "harness": "C12.c", "flavor": "ubsan", "engine": "E-B adversary",
         "tiers": {"quick": {"budget_s": 120}, "thorough": {"budget_s": 600}},
@@ -335,10 +376,19 @@ PROPS = {
         "Clean path: every cell of the grid (excluding forced fragment sizes the record type cannot carry) x latency classes runs four packets per direction, offered back-to-back and spaced; the sequence of tun writes on each side must equal the sequence of packets the peer accepted (exactly once, in order), for every packet that fits in 16 fragments. Recovery: in every cell of the pairwise-covering subset a 120-byte packet is offered on each tun every second for 105 virtual seconds; each of 17 outages (all queries / all answers / all datagrams dropped for 3, 7.4, 8, 12, 14, 25 or 35 s at several offsets) is followed by a clean path; neither program may have ended, and every packet offered from 45 s after the outage on must arrive exactly once, in order, within 10 s.",
         "Recovery is decided as bounded response on finite runs (B = 45 s, latency bound 10 s, horizon 105 s; genuine 'eventually' is not what a bounded explorer decides). A cell that cannot carry the offered load without any outage is reported as not judged instead of raising an alarm. 'accepted' is evaluated from read-only accessors at the moment the program reads its tun.",
         "distinct = distinct delivery outcome classes (clean-path runs) and distinct (outage, deliveries) classes (recovery runs)", ["recovery_runs", "recovery_probes_checked", "recovery_cells_not_judged"]),
-    "C10": ea_entry("C10",
-        "Every datagram emitted by the real client and the real server in every execution of the C01 exploration (clean path on all cells, every single fate deviation on the pairwise subset) is parsed by an independent strict RFC 1035 parser; every server answer must pair with a received, not yet answered query with the same requester, id, question name (byte-exact) and type.",
-        "Trusted: ref/refdns.c. NS / A(ns,www) auxiliary answers are enumerated separately (see the C10 aux check in DESIGN.md); queries whose labels contain '.' or NUL are outside the property.",
-        "distinct = distinct outcome classes of the executions whose datagrams were parsed", ["strictly_parsed", "answers"]),
+    "C10": {
+        "engine": "E-A netsim + E-B adversary",
+        "parts": [
+            {"name": "ea", "harness": "ea.c", "flavor": "ubsan", "images": (("s", "server"), ("ca", "client")), "args": ["--prop", "C10"]},
+            {"name": "aux", "harness": "C10aux.c", "flavor": "ubsan", "images": (("s", "server"),), "args": []},
+        ],
+        "tiers": {"quick": {"budget_s": 480}, "thorough": {"budget_s": 2400}},
+        "coverage": cov_c10,
+        "level_text": "(1) Every datagram emitted by the real client and the real server in every execution of the E-A exploration (clean path on all cells, every single fate deviation on the pairwise subset) is parsed by an independent strict RFC 1035 parser; every server answer must pair with a received, not yet answered query with the same requester, id, question name (byte-exact) and type. (2) Auxiliary answers: under five tunnel domains (plain, upper-case, wildcard, minimal, maximal 128 characters) the real server loop is asked NS / A / tunnel-type / AAAA queries for every name built from up to three labels of length <= 2 over {a,A,0,-,0xe9,z,n,w}, ns./www. in every letter case and near misses, first labels of every length 1..63 (three fills, four first characters, with and without a second 63-byte label), names of 240..256 bytes on the wire in three label shapes, and names outside the domain (forwarded copy parsed too). Every answer must parse strictly, echo id/name/type; NS answers must name ns.<domain as asked>, ns./www. A answers must carry a 4-byte address.",
+        "level_note": "Trusted: ref/refdns.c. Queries whose labels contain '.' or NUL are outside the property and outside the alphabets. Client queries for all (L, domain, codec) combinations are strictly parsed by the C08 check.",
+        "technique": "stateless model checking (fate enumeration, deviation-bounded) of real client+server with a strict-parser monitor, plus exhaustive enumeration of query-name families against the real server loop",
+        "assumptions": EA_ASSUME,
+    },
     "C14": {
         "engine": "E-A netsim + E-B adversary",
         "parts": [
